@@ -32,14 +32,14 @@ class Harness:
         self.result = None
 
     def render(self):
-        attrs = ["#[kani::proof]"]
+        attrs = ["#[cfg_attr(kani, kani::proof)]"]
         if self.unwind:
-            attrs.append("#[kani::unwind(%d)]" % self.unwind)
-        attrs.append("#[kani::stub(%s, __vf_noop)]" % NOOP_STUB)
+            attrs.append("#[cfg_attr(kani, kani::unwind(%d))]" % self.unwind)
+        attrs.append("#[cfg_attr(kani, kani::stub(%s, __vf_noop))]" % NOOP_STUB)
         if self.fmt_stub:
-            attrs.append("#[kani::stub(std::fmt::format, __vf_format)]")
+            attrs.append("#[cfg_attr(kani, kani::stub(std::fmt::format, __vf_format))]")
         for orig, repl in self.stubs:
-            attrs.append("#[kani::stub(%s, %s)]" % (orig, repl))
+            attrs.append("#[cfg_attr(kani, kani::stub(%s, %s))]" % (orig, repl))
         return "    %s\n    pub fn %s() {\n%s\n    }\n" % ("\n    ".join(attrs), self.name, self.body)
 
 
@@ -49,6 +49,24 @@ PRELUDE = """
     use super::*;
     pub fn __vf_noop() {}
     pub fn __vf_format(_a: std::fmt::Arguments<'_>) -> std::string::String { std::string::String::new() }
+    // native replay shim: the same harness bodies run as ordinary tests, kani::any() reads the
+    // bytes of Kani's concrete playback in call order
+    #[cfg(not(kani))]
+    pub mod kani {
+        use std::cell::RefCell;
+        use std::collections::VecDeque;
+        thread_local! { pub static VALS: RefCell<VecDeque<Vec<u8>>> = RefCell::new(VecDeque::new()); }
+        pub struct AssumeViolated;
+        pub fn set(v: Vec<Vec<u8>>) { VALS.with(|q| *q.borrow_mut() = v.into_iter().collect()); }
+        pub fn any<T>() -> T {
+            let v = VALS.with(|q| q.borrow_mut().pop_front()).expect("__verif_shim: ran out of concrete values");
+            assert!(v.len() == std::mem::size_of::<T>(), "__verif_shim: size mismatch {} vs {}", v.len(), std::mem::size_of::<T>());
+            unsafe { std::ptr::read_unaligned(v.as_ptr() as *const T) }
+        }
+        pub fn assume(c: bool) { if !c { std::panic::panic_any(AssumeViolated); } }
+        macro_rules! cover { ($($t:tt)*) => {}; }
+        pub(crate) use cover;
+    }
 """
 
 
@@ -94,8 +112,12 @@ def parse_output(out):
     m = re.search(r"Verification Time: ([\d.]+)s", out)
     res["verif_s"] = float(m.group(1)) if m else None
     res["stubs_applied"] = re.findall(r"- Stub: (.*)", out)
-    m = re.search(r"Concrete playback unit test for `[^`]*`:\s*```\s*\n(.*?)```", out, re.S)
-    res["playback"] = m.group(1) if m else None
+    res["playbacks"] = []
+    for m in re.finditer(r"Concrete playback unit test for `[^`]*`:\s*```\s*\n(.*?)```", out, re.S):
+        blk = m.group(1)
+        mm = re.search(r"/// Check for `(\w+)`: \"(.*)\"", blk)
+        res["playbacks"].append({"kind": mm.group(1) if mm else "", "desc": mm.group(2) if mm else "", "text": blk})
+    res["playback"] = None
     return res
 
 
@@ -133,7 +155,7 @@ class KaniRun:
 
     def _write_overlay(self):
         for file_rel, f in self.frags.items():
-            text = "#[cfg(kani)]\nmod __verif {" + PRELUDE + "\n".join(f["prelude"]) + "\n" + \
+            text = "#[cfg(any(kani, verif_replay))]\nmod __verif {" + PRELUDE + "\n".join(f["prelude"]) + "\n" + \
                    "\n".join(h.render() for h in f["harnesses"]) + "}\n"
             self.s.append(file_rel, text)
             f["text"] = text
@@ -244,7 +266,7 @@ class KaniRun:
         fails, hence only on demand)."""
         res, rc, tail, dt = self._invoke([h], self.kt0, playback=True)
         r = res.get(h.full)
-        return r.get("playback") if r else None
+        return r.get("playbacks") if r else []
 
     # ------------------------------------------------------------------
     def obligations(self, h, functions):
@@ -294,7 +316,7 @@ class KaniRun:
             seen.add(key)
             out.append(Obligation(base, key=key, verdict=VIOLATED,
                                   reason="%s (%s)" % (c["desc"], c["loc"]),
-                                  playback=r.get("playback"), harness=h))
+                                  check_desc=c["desc"], harness=h))
         # assertions of the harness that passed
         agg = []
         for aid, meaning in h.asserts.items():
@@ -331,40 +353,96 @@ class KaniRun:
 
 def confirm_violations(rep, scratch, runs):
     """Replay every *unlisted* violated Kani obligation natively (dev and release) before it is
-    reported: rerun the harness with concrete playback, append the generated unit test to the
-    overlay, run it with `cargo kani playback`.  A counterexample that does not reproduce in
-    either profile turns the obligation into an ENCODING-ERROR (exit 2), not a violation."""
+    reported: rerun the harness with concrete playback, feed the bytes to the native shim in the
+    overlay and run the harness body as an ordinary `cargo test`.  A counterexample that does not
+    reproduce in either profile turns the obligation into an ENCODING-ERROR (exit 2)."""
     import hashlib
-    for o in rep.obls:
-        if o.get("verdict") != VIOLATED or rep.known.lookup(rep.prop, o["key"]):
-            continue
+    todo = [o for o in rep.obls if o.get("verdict") == VIOLATED and not rep.known.lookup(rep.prop, o["key"])]
+    cache = {}
+    for o in todo:
         h = o.get("harness")
         run = next((r for r in runs if h in r.all_harnesses()), None) if h else None
         if not run:
             continue
-        pb = run.playback_of(h)
-        o["playback"] = pb
-        ok, detail = replay(scratch, run, o)
+        if h.name not in cache:
+            cache[h.name] = run.playback_of(h)
+        pbs = cache[h.name]
+        want = o.get("check_desc", "")
+        pb = next((p for p in pbs if p["kind"] != "cover" and want and p["desc"].strip('"').startswith(want[:40])), None) or \
+            next((p for p in pbs if p["kind"] != "cover"), None)
+        ok, detail, vals = (None, "no concrete playback produced", None)
+        if pb:
+            ok, detail, vals = native_replay(scratch, run, h, pb["text"])
         d = os.path.join(os.path.dirname(os.path.dirname(os.path.abspath(__file__))), "replays", rep.prop)
         os.makedirs(d, exist_ok=True)
         path = os.path.join(d, hashlib.sha256(o["key"].encode()).hexdigest()[:10] + ".rs")
         with open(path, "w") as f:
-            f.write("// property %s obligation %s\n// %s\n// harness (appended to %s inside `#[cfg(kani)] mod __verif`):\n%s\n// concrete playback test:\n%s\n// native replay: %s\n"
-                    % (rep.prop, o["key"], o.get("reason", ""), h.file_rel, h.render(), pb or "(none)",
-                       "\n// ".join(str(detail).splitlines()[-30:])))
+            f.write("// property %s obligation %s\n// %s\n// harness (appended to %s inside mod __verif):\n%s\n// concrete values (kani::any() in call order): %s\n// native replay: %s\n"
+                    % (rep.prop, o["key"], o.get("reason", ""), h.file_rel, h.render(), vals,
+                       "\n// ".join(str(detail).splitlines()[-40:])))
         o["replay"] = path
+        o["model"] = vals
         rep.replayed += 1
         if ok is False:
             o["verdict"] = BROKEN
             o["reason"] = "counterexample did not reproduce natively: " + o.get("reason", "")
         elif ok is None:
-            o["replay_note"] = "no concrete playback available (%s); reported from the CBMC trace only" % detail
+            o["replay_note"] = "native replay unavailable (%s); reported from the CBMC trace" % str(detail)[:200]
     for o in rep.obls:
         o.pop("harness", None)
         o.pop("playback", None)
 
 
-def replay(scratch, run, ob, release=True):
+def native_replay(scratch, run, h, pbtext):
+    m = re.search(r"let concrete_vals: Vec<Vec<u8>> = vec!\[(.*?)\];\s*kani::concrete_playback_run", pbtext, re.S)
+    if not m:
+        return None, "unparsable playback", None
+    body = re.sub(r"//[^\n]*", "", m.group(1))
+    vals = "vec![" + " ".join(body.split()) + "]"
+    tname = "vreplay_" + h.name
+    test = """
+    #[cfg(all(test, verif_replay))]
+    #[test]
+    fn %s() {
+        kani::set(%s);
+        let r = std::panic::catch_unwind(|| { %s(); });
+        match r {
+            Ok(()) => println!("VREPLAY: completed without panic"),
+            Err(e) => {
+                if e.downcast_ref::<kani::AssumeViolated>().is_some() { println!("VREPLAY: assumption violated"); }
+                else {
+                    let msg = e.downcast_ref::<String>().cloned().or_else(|| e.downcast_ref::<&str>().map(|s| s.to_string())).unwrap_or_default();
+                    println!("VREPLAY: PANIC {}", msg);
+                }
+            }
+        }
+    }
+""" % (tname, vals, h.name)
+    path = scratch.path(h.file_rel)
+    src = open(path, encoding="utf-8").read()
+    if ("fn " + tname + "(") not in src:
+        i = src.rstrip().rfind("}")
+        src = src[:i] + test + "}\n"
+        open(path, "w", encoding="utf-8").write(src)
+    results = []
+    rep = False
+    for prof in ([], ["--release"]):
+        cmd = ["cargo", "test", "--offline", "-p", run.pkg, "--lib"] + prof + ["--", tname, "--exact", "--nocapture", "--test-threads", "1"]
+        cmd = ["cargo", "test", "--offline", "-p", run.pkg, "--lib"] + prof + ["--", tname, "--nocapture", "--test-threads", "1"]
+        rc, out, dt = sh(cmd, cwd=scratch.src, env=scratch.env(RUSTFLAGS="--cfg verif_replay",
+                                                                CARGO_TARGET_DIR=os.path.join(scratch.root, "native")), timeout=3000)
+        lines = [l for l in out.splitlines() if "VREPLAY:" in l]
+        results.append("%s: %s" % (" ".join(prof) or "dev", lines[0] if lines else "no result (rc=%s) %s" % (rc, out[-600:])))
+        if lines and "PANIC" in lines[0] and "__verif_shim" not in lines[0]:
+            rep = True
+        elif rc != 0 and not lines and ("panicked at" in out or "SIGABRT" in out or "overflow" in out):
+            rep = True      # aborting panic (e.g. inside a nounwind frame)
+    if not any("VREPLAY:" in r for r in results) and not rep:
+        return None, "\n".join(results), vals
+    return rep, "\n".join(results), vals
+
+
+def replay_unused(scratch, run, ob, release=True):
     """Append Kani's concrete-playback test to the overlay and run it natively.
     Returns (reproduced: bool, text)."""
     h = ob.get("harness")
